@@ -209,6 +209,19 @@ CLAIMED["C12"] = dict(
           "not part of the proof (documented in the code): tampering with it is replayed as the verifier deriving a different balance. Chunk sums beyond 2^33 are outside the property. 36 transfer scenarios quick."),
     ref="4 C12")
 
+CLAIMED["C07"] = dict(
+    engine="base",
+    technique="TLA+ specs Transcript (byte framing of the Fiat-Shamir transcript; injectivity of the V1 framing checked by TLC over pairs of same-shape operation sequences) and Sigma (every protocol as a matrix of group elements over Z_q: completeness, response / statement binding, special soundness for all witnesses, randomness and challenges); byte streams and (protocol, witness class, perturbation) rows replayed on the real transcript types and sigma protocols over BLS12-381",
+    text=("Transcript.tla specifies what is hashed: u64be length-prefixed labels, serialised items, counted item lists, the domain as first label; TLC shows the V1 framing injective on all pairs of same-shape sequences of the "
+          "bounded alphabet (the legacy oracle's documented ambiguity is kept as an explicit witness). Every sequence is replayed on TranscriptProtocolV1 and RandomOracle and the challenge compared with SHA3-256 of the "
+          "specified bytes. Sigma.tla writes dlog, aggregate_dlog, dlog_eq, com_eq, com_eq_different_groups, com_enc_eq, vcom_eq, com_lin, com_mult and the AND / replicated compositions as linear maps and TLC checks "
+          "completeness, that changing any response component or (for non-zero challenge) any image changes the extracted commitment, and special soundness, for all values over Z_5 / Z_3. Its rows (one witness component at "
+          "0, 1 or r-1, all random, all zero; perturbation of nothing, the context, the challenge, each public input, each response scalar) are replayed with prove / verify on G1 (and G2 where two groups are involved) "
+          "under both transcript types: unperturbed proofs must verify, every perturbed one must not."),
+    note=("dlog_eq and com_lin are model-checked only (not constructible from outside the crate); com_eq_sig, ps_sig_known, com_ineq and enc_trans are exercised indirectly by the credential, statement and encrypted-transfer checks. "
+          "Soundness and zero-knowledge proper are outside TLC."),
+    ref="4 C07")
+
 NOT_YET = {
 }
 
